@@ -203,6 +203,23 @@ def run_case(case, mir, schema, native=None, quick=True):
                 rec = h.prove(o, expr, cl.name)
                 rec["claim"] = cl
                 rec["kind"] = k
+                wd = []
+                if rec["status"] == "violated" and k == "ok" and getattr(case, "check_side", True) and o.st.events and not isinstance(expr, bool):
+                    # the path's side conditions are obligations of their own (below): look for a violation of this claim
+                    # inside the region where they hold, so that one undefined operation is reported once, where it happens
+                    wd = [to_z3(cond) for (_, cond, _) in o.st.events]
+                    verdict, mwd = h.within_side_conditions(o, to_z3(expr), wd)
+                    if verdict == "sat":
+                        rec["model"] = h.model_values(mwd)
+                        rec["_model"] = mwd
+                    elif verdict == "unsat":
+                        rec["status"] = "holds"
+                        rec["only_where_a_side_condition_fails"] = True
+                        rec.pop("model", None)
+                        rec.pop("_model", None)
+                        wd = []
+                    else:
+                        wd = []
                 if rec["status"] == "violated":
                     # look for a witness that violates the claim by a clear margin (survives f64 rounding on replay)
                     try:
@@ -210,11 +227,13 @@ def run_case(case, mir, schema, native=None, quick=True):
                         tol = cl.fn(ctx)
                     finally:
                         tmpl.MARGIN = None
-                    m2 = h.robust_model(o, to_z3(tol)) if not isinstance(tol, bool) else None
+                    m2 = h.robust_model(o, to_z3(tol), extra=wd) if not isinstance(tol, bool) else None
                     if m2 is not None:
                         rec["model"] = h.model_values(m2)
                         rec["_model"] = m2
                         rec["robust_witness"] = True
+                    if not isinstance(expr, bool):
+                        rec["_retry"] = (o, z3.Not(to_z3(tol)) if m2 is not None else z3.Not(to_z3(expr)), wd)
             # side conditions recorded by the engine on Ok paths (NaN/inf production, overflow)
             if k == "ok" and getattr(case, "check_side", True):
                 for r in h.check_events(o, prefix="side:"):
@@ -257,6 +276,19 @@ def run_case(case, mir, schema, native=None, quick=True):
             if native is not None and case.recv is not None or native is not None and case.free_fn:
                 try:
                     v["replay"] = replay(case, b, schema, rec["model"], cl, native, rec["name"])
+                    if v["replay"].get("reproduced") is not True and rec.get("_retry") is not None:
+                        # the witness may sit on a rounding-sensitive boundary of the path: try other models of the same violation
+                        import random as _random
+                        import zlib as _zlib
+                        o_, neg_, wd_ = rec["_retry"]
+                        rnd = _random.Random(_zlib.crc32((case.name + rec["name"]).encode()))
+                        for k_, m_ in enumerate(h.alt_models(o_, neg_, wd_, rec["model"], rnd)):
+                            mv_ = h.model_values(m_)
+                            rp_ = replay(case, b, schema, mv_, cl, native, rec["name"])
+                            if rp_.get("reproduced") is True:
+                                rp_["alternative_witness_no"] = k_ + 1
+                                v["replay"], v["model"], rec["model"] = rp_, mv_, mv_
+                                break
                 except Exception as e:
                     v["replay"] = {"reproduced": None, "error": repr(e)}
             res["violations"].append(v)
@@ -287,8 +319,13 @@ def replay(case, b, schema, model, claim, native, claim_name):
     if claim is None:
         # engine side condition (division by zero / NaN etc.): reproduced if any number in the post state is non-finite
         txt = json.dumps(resp.get("recv"))
-        out["reproduced"] = ("null" in txt and kind == "ok") or kind == "panic"
-        out["note"] = "side condition: non-finite value shows as null in the serialized state"
+        import re as _re
+        nan_err = kind == "err" and _re.search(r"NaN|\binf\b", str(resp.get("msg")))
+        out["reproduced"] = bool(("null" in txt and kind == "ok") or kind == "panic" or nan_err)
+        if kind == "err" and not nan_err:
+            out["reproduced"] = None
+            out["error"] = "the real build rejects this input (Err) before the undefined value can be observed: " + str(resp.get("msg"))[:200]
+        out["note"] = "side condition: non-finite value shows as null in the serialized state, or is named by the returned error"
         return out
     if claim.when == "nopanic":
         out["reproduced"] = kind == "panic"
